@@ -247,9 +247,11 @@ def run(chk):
                         kind = "state" if "reads as" in pr or "ListParts" in pr else "listing" if "List" in pr else "recovery"
                         sidecar = cfg.get("meta") == "sidecar"
                         # (with the sidecar store the attributes are files keyed by the object's name: one finding per operation, whatever the kill point)
-                        chk.fail("c11:%s:sidecar:%s" % (kind, opname) if sidecar and kind == "state" else "c11:%s:%s:%s:%s" % (kind, opname, s_.split(".", 1)[1], label.split("+")[1] + ("+versioned" if versioned else "")),
+                        # ("-prever" / "-suspended" only say what was under the key before; the mechanism and the finding are the operation's)
+                        baseop = opname[:-7] if opname.endswith("-prever") else opname[:-10] if opname.endswith("-suspended") else opname
+                        chk.fail("c11:state:sidecar:%s" % baseop if sidecar and (kind == "state" or (kind == "listing" and "is altered" in pr)) else "c11:%s:%s:%s:%s" % (kind, opname, s_.split(".", 1)[1], label.split("+")[1] + ("+versioned" if versioned else "")),
                                  "[%s] %s killed at %s: %s" % (label, opname, s_, pr), row)
-                    if "vcase" in row:
+                    if "vcase" in row and cfg.get("meta") != "sidecar":      # (the sidecar store's attributes are not bound to the file: listed findings)
                         vcases.append((row["vcase"], row))
                     if "pcase" in row and cfg.get("meta") != "sidecar":
                         pcases.append((row["pcase"], row))
